@@ -605,6 +605,7 @@ def check_universe(ctx, w, uni, max_calls):
                               {"kind": "plotdata", "universe": uni, "outs": ol, "pops": pl, "entry": [oi, gi], "ti": ti, "call_seed": call_seed, "script": script})
     # ---- interpolation and time aggregation on some of the reference requests ----
     check_resampling(ctx, w, uni, rng.getrandbits(48))
+    check_resampling_multi(ctx, w, uni, rng.getrandbits(48))
 
 
 def triage_ref_disagreement(ctx, w, uni, o, g, ti, m, iv):
@@ -823,6 +824,50 @@ def check_resampling(ctx, w, uni, rs_seed):
 # ----------------------------------------------------------------------------------------------
 # Part 3: cascades
 # ----------------------------------------------------------------------------------------------
+
+def check_resampling_multi(ctx, w, uni, rs_seed):
+    """time aggregation of SEVERAL outputs in one call, with differing Series.timescale (some without a timescale):
+    every series must equal the one obtained when that output is requested (and aggregated) on its own."""
+    rng = random.Random(rs_seed ^ 0x5EED)
+    outs, pops, oa, pa = uni["outs"], uni["pops"], uni["oa"], uni["pa"]
+    if len(outs) < 2 or w.T < 3:
+        return
+    sel = rng.sample(outs, rng.randint(2, min(3, len(outs))))
+    g = rng.choice(pops)
+    t0, t1 = float(w.t[0]), float(w.t[-1])
+    nb = rng.randint(1, 3)
+    edges = sorted({round(t0 + rng.random() * (t1 - t0), 2) for _ in range(nb + 1)} | {t0})
+    if len(edges) < 2:
+        edges = [t0, t1]
+    method = rng.choice(["integrate", "average", None])
+    # timescales: at least one numeric one followed by one without a timescale (the order matters for carried-over state)
+    tss = [rng.choice([1 / 12, 1 / 52, 0.5, 2.0]) if rng.random() < 0.6 else float("nan") for _ in sel]
+    if all(not math.isnan(x) for x in tss):
+        tss[-1] = float("nan")
+    if all(math.isnan(x) for x in tss):
+        tss[0] = 1 / 12
+    d = run_plotdata(w, sel, [g], oa, pa)
+    order = [series_of(d, g, o) for o in sel]
+    if not all(np.all(np.isfinite(sr.vals)) for sr in order):
+        return
+    for sr, ts in zip(order, tss):
+        sr.timescale = ts
+    with np.errstate(all="ignore"):
+        d.time_aggregate(list(edges), method)
+    ctx.count("tagg.multi_series")
+    for o, ts in zip(sel, tss):
+        d1 = run_plotdata(w, [o], [g], oa, pa)
+        d1.series[0].timescale = ts
+        with np.errstate(all="ignore"):
+            d1.time_aggregate(list(edges), method)
+        a, b = series_of(d, g, o).vals, d1.series[0].vals
+        ctx.traces += 1
+        if not same(np.asarray(a, dtype=float), np.asarray(b, dtype=float)):
+            ctx.violation({"api": "PlotData.time_aggregate", "defect": "depends_on_other_outputs"},
+                          f"{w.name}: time aggregate of ({out_name(o)}, {pop_name(g)}) timescale={ts!r} method={method} onto {edges} = {np.asarray(a).tolist()} when requested with {[out_name(x) for x in sel]} (timescales {tss}) but {np.asarray(b).tolist()} when requested alone",
+                          {"kind": "resample_multi", "universe": uni, "rs_seed": rs_seed})
+            return
+
 def expand_constituent(fw, name):
     """compartments of a constituent, by the framework's 'components' column (independent of get_charac_includes)"""
     if name in fw.characs.index:
@@ -838,6 +883,9 @@ def has_denominator(fw, name):
         return False
     den = fw.characs.at[name, "denominator"] if "denominator" in fw.characs.columns else None
     return isinstance(den, str) and den.strip() != ""
+
+
+_LATER_BREAKS: list = []
 
 
 def gen_cascades(w, rng, n_adhoc):
@@ -866,6 +914,16 @@ def gen_cascades(w, rng, n_adhoc):
             # constituents with databook entries, the first one recurring in later stages (boundary for the in-place += of get_cascade_data)
             labs = rng.sample(w.data_labels, min(len(w.data_labels), rng.choice([2, 3])))
             stages = [("s0", list(labs)), ("s1", [labs[0]] + labs[2:])] + ([("s2", [labs[0]])] if len(labs) > 2 else [])
+            cs.append({"kind": "adhoc_dict", "arg": {nm: cons for nm, cons in stages}, "stages": stages})
+            continue
+        if len(plain) >= 3 and rng.random() < 0.2:
+            # three stages, the third inside the first but NOT inside the second: must be rejected (nesting is between consecutive stages)
+            base = rng.sample(plain, rng.randint(3, min(6, len(plain))))
+            a = rng.sample(base, rng.randint(1, len(base) - 1))
+            rest = [x for x in base if x not in a]
+            b = [rng.choice(rest)] + (rng.sample(a, rng.randint(0, len(a) - 1)) if len(a) > 1 else [])
+            stages = [("stage0", list(base)), ("stage1", a), ("stage2", b)]
+            _LATER_BREAKS.append(1)
             cs.append({"kind": "adhoc_dict", "arg": {nm: cons for nm, cons in stages}, "stages": stages})
             continue
         if r < 0.3 and len(characs) >= 2:
@@ -897,7 +955,16 @@ def gen_cascades(w, rng, n_adhoc):
             k = rng.randrange(len(stages))
             nm, cons = stages[k]
             stages[k] = (nm, cons + [rng.choice(cons)])
-        elif rr < 0.35 and len(stages) >= 2:
+        elif rr < 0.5 and len(stages) >= 3:
+            # break the nesting between two LATER stages only: a compartment of the first stage that stage k-1 lacks, put into stage k
+            k = rng.randrange(2, len(stages))
+            have = set(expand_all(fw, stages[k - 1][1])) | set(expand_all(fw, stages[k][1]))
+            cand = [x for x in expand_all(fw, stages[0][1]) if x not in have]
+            if cand:
+                nm, cons = stages[k]
+                stages[k] = (nm, cons + [rng.choice(cand)])
+                _LATER_BREAKS.append(1)
+        elif rr < 0.6 and len(stages) >= 2:
             # break the nesting: a compartment in a later stage that the earlier stage lacks
             extra = [x for x in plain if x not in expand_all(fw, stages[0][1])]
             if extra:
@@ -930,6 +997,9 @@ def check_one_cascade(ctx, w, cas, cs_seed):
     comp_idx = {c: i for i, c in enumerate(w.comp_names)}
     pidx = {p: i for i, p in enumerate(w.pops)}
     ctx.count("cascade." + cas["kind"])
+    if _LATER_BREAKS:
+        ctx.count("cascade.later_stage_nesting_break", len(_LATER_BREAKS))
+        _LATER_BREAKS.clear()
     stages = cas["stages"]
     arg = cas["arg"] if not isinstance(cas["arg"], dict) else sc.odict(cas["arg"])
     # population selection
